@@ -15,7 +15,8 @@ EXPLANATION = (
     "every public operation on all four channels and of every server arm, field provenance of "
     "the conversions that place caller values into wire structs, and the iovec order / "
     "descriptor attachment of the send loop. The comparison's other side is not the crate, so the "
-    "symmetric-change blind spot of self-connected tests disappears.")
+    "symmetric-change blind spot of self-connected tests disappears."
+    ' Also: (W3) the flags word of every reply/ack header is decided on the VALUE the constructor function returns, read field by field along each success path (constructor call, copy-plus-setters and literal give the same verdict); (W7, W8) sibling rules C07/G1 and C08/S2 for the descriptor form of SET_LOG_BASE and for descriptors of segmented messages.')
 NOT_DECIDED = ("Bytes of a concrete run, kernel SCM_RIGHTS behaviour, native endianness (follows from "
                "ByteValued raw copies, assumed).")
 
